@@ -17,6 +17,8 @@ fn engine(id: &str, tier: &str, replay: Option<&serde_json::Value>) -> Option<gv
         ("C18", Some(v)) => c18::replay(v),
         ("C19", None) => c19::run(tier),
         ("C19", Some(v)) => c19::replay(v),
+        ("C08", None) => c08::run(tier),
+        ("C08", Some(v)) => c08::replay(v),
         ("C09", None) => c09::run(tier),
         ("C09", Some(v)) => c09::replay(v),
         ("C04", None) => c04::run(tier),
